@@ -1,6 +1,7 @@
 (* C12 — regex caching is transparent (tree level; the router level composes this with C02's
    refinement, see RIO.RouterProofs when present).  Statements only. *)
 Require Import RIO.Base RIO.Prefix RIO.Route RIO.Tree RIO.TreeProofs RIO.TreeInst RIO.Matchers RIO.MatcherSpec RIO.RouterSpec RIO.RouterHist RIO.RouterProofs.
+Require RIO.LazyRegex. Require Import RIOGen.ExtLazyRegex.
 Close Scope N_scope.
 
 (* Warming the cache (any limit, any level or the level loop) at any point of any admissible history
@@ -53,8 +54,30 @@ Qed.
 Theorem C12_router_cache_steps_invisible : forall ops1 ops2 limit, RouterHist.live (ops1 ++ RCache limit :: ops2) = RouterHist.live (ops1 ++ ops2).
 Proof. intros. unfold RouterHist.live, RouterHist.live_from. rewrite !fold_left_app. reflexivity. Qed.
 
+(* ---- the capture regex of a marker string (Route::compile -> MarkerString::compile compiles it IN PLACE behind an
+   Arc<RwLock<..>>): what regex() hands out, hence what capture() computes, does not depend on the compiled state.
+   Model RIO.LazyRegex (src/regex.rs with the cached value explicit); its shape is re-checked against src/regex.rs and
+   src/marker/mod.rs on every run (translator section LazyRegex: RIOGen.ExtLazyRegex).  [wf]: the cache, when present,
+   is what create_regex builds; true of new_leaf / new_node, preserved by compile. *)
+Theorem C12_capture_regex_cache_transparent : forall valid (r : LazyRegex.lazyrx),
+  LazyRegex.wf valid r -> LazyRegex.regex_of valid (LazyRegex.compile valid r) = LazyRegex.regex_of valid r.
+Proof. exact LazyRegex.compile_regex_transparent. Qed.
+
+Theorem C12_lazy_is_match_cache_transparent : forall eng valid (r : LazyRegex.lazyrx) s,
+  LazyRegex.wf valid r -> LazyRegex.lr_original r <> [] ->
+  LazyRegex.is_match eng valid (LazyRegex.compile valid r) s = LazyRegex.is_match eng valid r s.
+Proof. exact LazyRegex.compile_is_match_transparent. Qed.
+
+Theorem C12_lazy_wf : forall valid re ic (r : LazyRegex.lazyrx),
+  LazyRegex.wf valid (LazyRegex.new_leaf re ic) /\ LazyRegex.wf valid (LazyRegex.new_node re ic) /\ LazyRegex.wf valid (LazyRegex.compile valid r)
+  /\ ext_lazy_regex_shape_checked = true.
+Proof. intros. repeat split; [apply LazyRegex.wf_new_leaf|apply LazyRegex.wf_new_node|apply LazyRegex.wf_compile]. Qed.
+
 Print Assumptions C12_tree_cache_transparent.
 Print Assumptions C12_router_cache_transparent.
 Print Assumptions C12_router_cache_steps_invisible.
 Print Assumptions C12_cache_steps_invisible.
 Print Assumptions C12_only_flags.
+Print Assumptions C12_capture_regex_cache_transparent.
+Print Assumptions C12_lazy_is_match_cache_transparent.
+Print Assumptions C12_lazy_wf.
